@@ -225,6 +225,10 @@ def main():
                         mm, ii = runner.run([("s", cand)], timeout=20)
                     except Exception:
                         return False
+                    # a candidate that only makes the harness itself fail (an object used but never
+                    # created: std::map::at throws) is not a smaller instance of the same divergence
+                    if any(l.startswith("EXC map::at") for l in ii.get("s", [])) and "EXC map::at" not in str(d[2]):
+                        return False
                     return vlib.first_diff(mm.get("s", []), ii.get("s", [])) is not None
                 small = vlib.shrink(lines, still_div, max_tests=120 if tier == "quick" else 400)
                 try:
